@@ -468,6 +468,19 @@ func (ts *Terms) loadAlloc(a *ssa.Alloc, fld *ssa.FieldAddr, fr *Frame, depth in
 		name := fieldNameShort(fld.X.Type(), fld.Field)
 		if len(m) == 0 {
 			if len(whole) == 0 {
+				// filled through its address by a call (Unmarshal(bz, &x)): name it by that call
+				for _, r := range *a.Referrers() {
+					if ci, ok := r.(*ssa.Call); ok {
+						return simplifyField(mk("call", "out:"+callName(ci), ts.callArgs(ci, fr, depth, a)...), name)
+					}
+					if mi, ok := r.(*ssa.MakeInterface); ok {
+						for _, r2 := range *mi.Referrers() {
+							if ci, ok := r2.(*ssa.Call); ok {
+								return simplifyField(mk("call", "out:"+callName(ci), ts.callArgs(ci, fr, depth, mi)...), name)
+							}
+						}
+					}
+				}
 				return mk("const", "zero")
 			}
 			wm := map[string]*Term{}
@@ -653,6 +666,10 @@ func (ts *Terms) call(x *ssa.Call, fr *Frame, depth int) *Term {
 		}
 	}
 	t := &Term{Op: "call", Name: callName(x), Site: x.Pos()}
+	if t.Name == "" && !c.IsInvoke() {
+		// call of a function value: name it by the value's origin
+		t.Name = "call[" + ts.of(c.Value, fr, depth+1).LooseString() + "]"
+	}
 	t.Args = ts.callArgs(x, fr, depth, nil)
 	return t
 }
